@@ -122,6 +122,52 @@ fn rst_close(s: TcpStream) {
     drop(s);
 }
 
+/// keep-alive reuse: every connection answers its FIRST request completely and keeps the
+/// connection; the fault (`kind` without the `reuse_` prefix) hits the SECOND request on it
+fn reuse_backend(listener: TcpListener, scn: Scn, until: Instant) {
+    listener.set_nonblocking(true).unwrap();
+    let mut held: Vec<TcpStream> = vec![];
+    let full_cl = format!("{HEAD_CL}{BODY}");
+    while Instant::now() < until {
+        let (mut s, _) = match listener.accept() {
+            Ok(x) => x,
+            Err(_) => {
+                std::thread::sleep(Duration::from_millis(5));
+                continue;
+            }
+        };
+        s.set_nonblocking(false).unwrap();
+        s.set_read_timeout(Some(Duration::from_secs(10))).unwrap();
+        let _ = s.set_nodelay(true);
+        if read_request(&mut s).is_none() {
+            continue;
+        }
+        let _ = s.write_all(full_cl.as_bytes());
+        let _ = s.flush();
+        if read_request(&mut s).is_none() {
+            continue;
+        }
+        let k = scn.k.min(full_cl.len());
+        match scn.kind.as_str() {
+            "reuse_stall" => held.push(s),
+            "reuse_stall_after" => {
+                let _ = s.write_all(&full_cl.as_bytes()[..k]);
+                held.push(s);
+            }
+            "reuse_reset_at" => {
+                let _ = s.write_all(&full_cl.as_bytes()[..k]);
+                let _ = s.flush();
+                rst_close(s);
+            }
+            _ => {
+                let _ = s.write_all(&full_cl.as_bytes()[..k]);
+                let _ = s.flush();
+                let _ = s.shutdown(Shutdown::Both);
+            }
+        }
+    }
+}
+
 /// scripted backend: serves connections until `until`
 fn backend(listener: TcpListener, scn: Scn, until: Instant) {
     listener.set_nonblocking(true).unwrap();
@@ -414,6 +460,21 @@ fn client(front: SocketAddr, scn: Scn) -> Vec<Resp> {
             }
             out.push(Resp { status: 0, complete: false, eof, hang: !eof, body: 0, extra, ms: t0.elapsed().as_millis(), b0: 0 });
         }
+        "sticky_refusing" => {
+            let r = format!("GET /x HTTP/1.1\r\nHost: {host}\r\nCookie: SOZUBALANCEID=sa\r\n\r\n");
+            let _ = s.write_all(r.as_bytes());
+            out.push(read_response(&mut s, &mut acc, true));
+        }
+        k if k.starts_with("reuse_") => {
+            let _ = s.write_all(req.as_bytes());
+            let r1 = read_response(&mut s, &mut acc, false);
+            let ok = r1.complete && !r1.eof;
+            out.push(r1);
+            if ok {
+                let _ = s.write_all(req.as_bytes());
+                out.push(read_response(&mut s, &mut acc, true));
+            }
+        }
         "two_finals" => {
             let _ = s.write_all(req.as_bytes());
             let r1 = read_response(&mut s, &mut acc, true);
@@ -497,6 +558,7 @@ fn main() {
         w.send(RequestType::AddCluster(Cluster {
             cluster_id: cid.clone(),
             https_redirect: scn.kind == "redirect",
+            sticky_session: scn.kind == "sticky_refusing",
             ..Default::default()
         }));
         w.send(RequestType::AddHttpFrontend(RequestHttpFrontend {
@@ -517,14 +579,32 @@ fn main() {
             backend_id: format!("b{}", scn.id),
             address: addr.into(),
             load_balancing_parameters: Some(LoadBalancingParams::default()),
-            sticky_id: None,
+            sticky_id: if scn.kind == "sticky_refusing" { Some("sb".to_string()) } else { None },
             backup: None,
         }));
+        if scn.kind == "sticky_refusing" {
+            // a second backend of the same cluster that refuses connections; the client's cookie names it
+            let dead = TcpListener::bind("127.0.0.1:0").unwrap();
+            let dead_addr = dead.local_addr().unwrap();
+            drop(dead);
+            w.send(RequestType::AddBackend(AddBackend {
+                cluster_id: format!("c{}", scn.id),
+                backend_id: format!("b{}-dead", scn.id),
+                address: dead_addr.into(),
+                load_balancing_parameters: Some(LoadBalancingParams::default()),
+                sticky_id: Some("sa".to_string()),
+                backup: None,
+            }));
+        }
         if scn.kind == "refuse" {
             drop(l); // nothing listens there any more
         } else {
             let sc = scn.clone();
-            backends.push(std::thread::spawn(move || backend(l, sc, until)));
+            if scn.kind.starts_with("reuse_") {
+                backends.push(std::thread::spawn(move || reuse_backend(l, sc, until)));
+            } else {
+                backends.push(std::thread::spawn(move || backend(l, sc, until)));
+            }
         }
     }
     w.drain();
